@@ -153,10 +153,48 @@ class Minimiser:
                 def nth0(c, i=i):
                     c["faults"][i]["nth"] = 0
                 case = self.try_one(case, "%s fault %d -> first file opened" % (f["op"], i), nth0)
-        # 7. a remaining shuffled listdir order: make it explicit, then move it towards sorted
-        for d, spec in list(case["env"].get("listdir", {}).items()):
+        # 7. a remaining non-sorted directory order: make it explicit ("these names first, in this
+        # order, the rest sorted") and ddmin that list - dropping a name moves it back to its
+        # sorted position, so what remains is the handful of entries whose position matters.
+        import os
+        import random
+
+        from . import tree as _tree
+
+        def explicit_order(d, spec):
+            try:
+                names = sorted(os.listdir(os.path.join(_tree.REPO, d)))
+            except OSError:
+                return None
+            names = sorted(set(names) | set(case["env"].get("extra_entries", {}).get(d, [])))
+            if spec == "reversed":
+                return names[::-1]
             if isinstance(spec, dict) and "shuffle" in spec:
-                case = self.try_one(case, "listdir(%s) -> reversed" % d, lambda c, d=d: c["env"]["listdir"].__setitem__(d, "reversed"))
+                order = list(names)
+                random.Random("%s|%s" % (spec["shuffle"], d)).shuffle(order)
+                return order
+            if isinstance(spec, dict) and "explicit" in spec:
+                return list(spec["explicit"])
+            return None
+
+        for d, spec in list(case["env"].get("listdir", {}).items()):
+            if spec == "sorted":
+                continue
+            order = explicit_order(d, spec)
+            if not order:
+                continue
+            cand = copy.deepcopy(case)
+            cand["env"]["listdir"][d] = {"explicit": order}
+            r = self.first_failing([("listdir(%s) -> explicit order" % d, cand)])
+            if not r:
+                continue
+            case = r[1]
+            case = self.ddmin_list(
+                case,
+                lambda c, d=d: c["env"]["listdir"][d]["explicit"],
+                lambda c, v, d=d: (c["env"]["listdir"][d].__setitem__("explicit", v), c)[1],
+                "listdir(%s) entries out of sorted position" % d,
+            )
         final = self.fails(case)
         self.evals += 1
         return case, final
